@@ -140,6 +140,8 @@ SIGNAL_CTORS = {"Signal"}
 class Walker:
     def __init__(self, func_info, index, inline_depth=3, no_inline=()):
         self.no_inline = set(no_inline)
+        self.localprocs = {}
+        self.proc_depth = 0
         self.fi = func_info
         self.index = index
         self.t = Template(func_info)
@@ -163,7 +165,54 @@ class Walker:
         return self.nid
 
     def ex(self, node):
+        if self.localprocs:
+            node = self.call_local_procs(node)
         return self.inline_helpers(ir.from_ast(node, self.env))
+
+    def call_local_procs(self, node):
+        """Replay multi-statement local functions at their call sites: parameters bound, the statements walked in the
+        current context, the returned expression held in a temporary that replaces the call."""
+        walker = self
+
+        class T(ast.NodeTransformer):
+            def visit_Call(self, call):
+                self.generic_visit(call)
+                if not (isinstance(call.func, ast.Name) and call.func.id in walker.localprocs and
+                        walker.env.get(call.func.id) == ('localproc', call.func.id)):
+                    return call
+                st, body = walker.localprocs[call.func.id]
+                params = [a.arg for a in st.args.args]
+                if len(call.args) > len(params) or any(isinstance(a, ast.Starred) for a in call.args) or \
+                        any(k.arg is None or k.arg not in params for k in call.keywords):
+                    walker.unsupported(call, f"call of local function {call.func.id} with arguments that cannot be bound")
+                    return call
+                bound = {p: walker.ex(a) for p, a in zip(params, call.args)}
+                for k in call.keywords:
+                    bound[k.arg] = walker.ex(k.value)
+                for p, dflt in zip(params[len(params) - len(st.args.defaults):], st.args.defaults):
+                    bound.setdefault(p, walker.ex(dflt))
+                if set(bound) != set(params):
+                    walker.unsupported(call, f"call of local function {call.func.id} leaves a parameter unbound")
+                    return call
+                if walker.proc_depth >= 3:
+                    walker.unsupported(call, f"local function {call.func.id} is recursive")
+                    return call
+                saved_env, saved_ctx = dict(walker.env), dict(walker.bind_ctx)
+                walker.proc_depth += 1
+                for p_, v in bound.items():
+                    walker.bind(p_, v)
+                walker.block(body[:-1])
+                value = walker.ex(body[-1].value)
+                walker.proc_depth -= 1
+                walker.env, walker.bind_ctx = saved_env, saved_ctx
+                tmp = f"__call_{walker.fresh()}"
+                walker.bind(tmp, value)
+                return ast.copy_location(ast.Name(id=tmp, ctx=ast.Load()), call)
+
+        import copy
+        if not any(isinstance(n, ast.Call) and isinstance(n.func, ast.Name) and n.func.id in self.localprocs for n in ast.walk(node)):
+            return node
+        return T().visit(copy.deepcopy(node))
 
     def inline_helpers(self, e, depth=3):
         """Replace calls to single-return helpers of the same class (self._f(x), Cls._f(x)) by their result expression."""
@@ -325,6 +374,14 @@ class Walker:
         if len(body) == 1 and isinstance(body[0], ast.Return) and body[0].value is not None:
             params = [a.arg for a in st.args.args]
             self.env[st.name] = ('localfn', tuple(params), body[0].value, dict(self.env))
+            self.bind_ctx[st.name] = self.gen
+        elif body and isinstance(body[-1], ast.Return) and body[-1].value is not None and \
+                not any(isinstance(n, (ast.Return, ast.Yield, ast.YieldFrom, ast.Nonlocal, ast.Global))
+                        for s in body[:-1] for n in ast.walk(s)) and \
+                not st.args.vararg and not st.args.kwarg and not st.args.kwonlyargs:
+            # statements followed by one return: replayed at every call site (see call_local_procs)
+            self.localprocs[st.name] = (st, body)
+            self.env[st.name] = ('localproc', st.name)
             self.bind_ctx[st.name] = self.gen
         else:
             self.unsupported(st, f"local function {st.name} is not a single return")
